@@ -602,4 +602,634 @@ theorem entityPass5_noError_iff (path : String) (s : Schema) (fuel : Nat) (e : E
   · intro h r hr it hit; exact (ruleItem_noError_iff path s fuel e r it).mp (h r hr it hit)
   · intro h r hr it hit; exact (ruleItem_noError_iff path s fuel e r it).mpr (h r hr it hit)
 
+/-! ### type declarations (pass 3) -/
+
+/-- the underlying type of a type declaration denotes a type, is not the declared type itself (not even below aggregate
+    constructors) and is not an entity; the items of a select denote types -/
+def TypeDeclWF (env : Env) (s : Schema) (t : TypeDecl) : Prop :=
+  match t.body with
+  | .ref r => (∀ n l, r.core = .named n l → n ≠ t.name) ∧ TypeRefWF env s r ∧ (∀ n l, r = .named n l → isEnt env s n = false)
+  | .select items => ∀ x ∈ items, DenotesType env s x.1
+  | .enum _ => True
+
+theorem typeDecl_noError_iff (p : String) (env : Env) (s : Schema) (t : TypeDecl) :
+    hasError (typeDeclDiags p env s t) = false ↔ TypeDeclWF env s t := by
+  simp only [typeDeclDiags, TypeDeclWF]
+  cases hb : t.body with
+  | enum items => simp [hasError_nil]
+  | select items =>
+    simp only [hasError_flatMap_false, typeRef_noError_iff, TypeRefWF]
+  | ref r =>
+    simp only [hasError_append, Bool.or_eq_false_iff, typeRef_noError_iff, and_assoc]
+    refine and_congr ?_ (and_congr Iff.rfl ?_)
+    · cases hc : r.core with
+      | simple => simp [hasError_nil]
+      | aggr b => simp [hasError_nil]
+      | named n l =>
+        simp only
+        by_cases hn : n = t.name
+        · simp only [hn, if_true]
+          constructor
+          · intro h; exfalso; revert h; errsimp
+          · intro h; exact absurd rfl (h t.name l rfl)
+        · simp only [hn, if_false, hasError_nil, true_iff]
+          intro n' l' h; cases h; exact hn
+    · cases r with
+      | simple => simp [hasError_nil]
+      | aggr b => simp [hasError_nil]
+      | named n l =>
+        simp only
+        by_cases hi : isEnt env s n = true
+        · simp only [hi, if_true]
+          constructor
+          · intro h; exfalso; revert h; errsimp
+          · intro h; have := h n l rfl; simp [hi] at this
+        · simp only [hi, Bool.false_eq_true, if_false, hasError_nil, true_iff]
+          intro n' l' h; cases h; simpa using hi
+
+/-! ### UNIQUE rules -/
+
+/-- `label : attr` needs `attr` visible in `e`; `label : SELF\q.attr` needs `q` an ancestor that itself declares `attr`, and
+    `attr` visible in `e` (the second, unqualified look-up) -/
+def UniqueWF (s : Schema) (fuel : Nat) (e : Entity) (u : UniqueItem) : Prop :=
+  match u.qual with
+  | none => AttrVisible s fuel e u.attr
+  | some q =>
+    isAncestor s q fuel e.name = true ∧
+      (match findEntity s q with
+       | none => AttrVisible s fuel e u.attr
+       | some qe => qe.attrs.any (·.name = u.attr) = true ∧ AttrVisible s fuel e u.attr)
+
+theorem unqualified_noError_iff (p : String) (s : Schema) (fuel : Nat) (e : Entity) (u : UniqueItem) :
+    hasError (match namedAttr s u.attr fuel e.name with
+      | some true => []
+      | _ => [mk p LibErrors.UNKNOWN_ATTR_IN_ENTITY u.line [sArg u.attr, sArg e.name]]) = false ↔ AttrVisible s fuel e u.attr := by
+  simp only [AttrVisible]
+  cases h : namedAttr s u.attr fuel e.name with
+  | none => errsimp
+  | some b => cases b <;> errsimp
+
+theorem needless_noError (p : String) (e : Entity) (u : UniqueItem) :
+    hasError (if e.attrs.any (·.name = u.attr) then [mk p LibErrors.UNIQUE_QUAL_REDECL u.line [sArg u.attr, sArg e.name]] else []) = false := by
+  split <;> errsimp
+
+theorem unique_noError_iff (p : String) (s : Schema) (fuel : Nat) (e : Entity) (u : UniqueItem) :
+    hasError (uniqueDiags p s e fuel u) = false ↔ UniqueWF s fuel e u := by
+  simp only [uniqueDiags, UniqueWF]
+  cases hq : u.qual with
+  | none => exact unqualified_noError_iff p s fuel e u
+  | some q =>
+    simp only
+    by_cases ha : isAncestor s q fuel e.name = true
+    · simp only [ha, Bool.not_true, Bool.false_eq_true, if_false, true_and]
+      cases hf : findEntity s q with
+      | none => exact unqualified_noError_iff p s fuel e u
+      | some qe =>
+        simp only
+        by_cases hh : qe.attrs.any (·.name = u.attr) = true
+        · simp only [hh, if_true, hasError_append, needless_noError, Bool.false_or, true_and]
+          exact unqualified_noError_iff p s fuel e u
+        · simp only [hh, Bool.false_eq_true, if_false, false_and, iff_false]
+          errsimp
+    · simp only [ha, Bool.not_false, if_true, false_and, iff_false]
+      errsimp
+
+/-! ### attributes: types and INVERSE -/
+
+theorem attr_noError_iff (p : String) (env : Env) (s : Schema) (fuel : Nat) (e : Entity) :
+    hasError (attrDiags p env s fuel e) = false ↔
+      ∀ a ∈ e.attrs, TypeRefWF env s a.ty ∧ InverseWF s (fun en an => namedAttr s an fuel en = some true) a := by
+  simp only [attrDiags, hasError_flatMap_false]
+  refine forall_congr' fun a => forall_congr' fun _ => ?_
+  simp only [hasError_append, Bool.or_eq_false_iff, typeRef_noError_iff]
+  refine and_congr_right fun hwf => ?_
+  have : typeRefDiags p env s a.ty = [] := (typeRefDiags_nil_iff p env s a.ty).mpr hwf
+  simp only [this, List.isEmpty_nil, if_true]
+  exact inverse_noError_iff p s a _
+
+/-! ### cycles, as pass 4 runs them -/
+
+theorem cycleDiags_noError_iff (p : String) (lc cc : Nat) (lineOf : String → Nat) (start : String) (r : Dfs)
+    (hl : isErrorCode lc = true) : hasError (cycleDiags p lc cc lineOf start (some r)) = false ↔ r.found = false := by
+  simp only [cycleDiags]
+  cases hf : r.found with
+  | false => simp [hasError_nil]
+  | true => simp [hasError_cons, mk_code, hl]
+
+theorem types_length_le (s : Schema) : (s.types.map (·.name)).length ≤ s.decls.length := by
+  simp only [List.length_map, Schema.types]
+  exact List.length_filterMap_le _ _
+
+theorem selectGraph_closed (s : Schema) : ∀ n, ∀ c ∈ selectGraph s n, c ∈ s.types.map (·.name) := by
+  intro n c hc
+  simp only [selectGraph] at hc
+  split at hc
+  · simp only [List.mem_filter, List.mem_map] at hc
+    obtain ⟨_, hc⟩ := hc
+    split at hc
+    next td hft =>
+      have h1 := List.mem_of_find?_eq_some hft
+      have h2 := List.find?_some hft
+      simp only [decide_eq_true_eq] at h2
+      exact List.mem_map.mpr ⟨_, h1, h2⟩
+    · simp at hc
+  · simp at hc
+
+/-- **select cycle ⇔ SELECT_LOOP** for a select type `t` -/
+theorem selectCycle_noError_iff (p : String) (s : Schema) (t : TypeDecl) (items : List (String × Nat)) (hb : t.body = .select items) :
+    hasError (selectCycleDiags p s t) = false ↔ ¬ Reach (selectGraph s) t.name t.name := by
+  have hv : ResolveGen.visitedReturnsSelect = false := by decide
+  simp only [selectCycleDiags, hb, hv]
+  have hU : (s.types.map (·.name)).length < s.decls.length + 1 := by have := types_length_le s; omega
+  obtain ⟨r, hr⟩ := dfs_terminates false t.name (selectGraph s) _ (fun m _ => selectGraph_closed s m) (selectGraph_closed s t.name) _ hU
+  rw [hr, cycleDiags_noError_iff _ _ _ _ _ _ err_SELECT_LOOP]
+  have key := dfs_found_iff t.name (selectGraph s) _ (fun m _ => selectGraph_closed s m) (selectGraph_closed s t.name) _ hU
+  constructor
+  · intro hf hc
+    obtain ⟨r', hr', hf'⟩ := key.mpr hc
+    rw [hr] at hr'; cases hr'; rw [hf] at hf'; cases hf'
+  · intro hn
+    cases hf : r.found with
+    | false => rfl
+    | true => exact absurd (key.mp ⟨r, hr, hf⟩) hn
+
+/-- **subtype cycle ⇔ SUBSUPER_LOOP** as pass 4 runs it (below the recursion-depth guard) -/
+theorem subsuperCycle_noError_iff (p : String) (s : Schema) (e : Entity)
+    (hlim : ∀ k, ResolveGen.subsuperDepthLimit = some k → s.decls.length < k) :
+    hasError (subsuperCycleDiags p s e) = false ↔ ¬ Reach (subGraph s) e.name e.name := by
+  have hv : ResolveGen.visitedReturnsSubsuper = false := by decide
+  have hfuel : subsuperFuel s = s.decls.length + 1 := by
+    unfold subsuperFuel
+    cases hk : ResolveGen.subsuperDepthLimit with
+    | none => rfl
+    | some k => have := hlim k hk; simp only; omega
+  simp only [subsuperCycleDiags, hv, hfuel]
+  have hU : (s.entities.map (·.name)).length < s.decls.length + 1 := by have := entities_length_le s; omega
+  obtain ⟨r, hr⟩ := dfs_terminates false e.name (subGraph s) _ (fun m _ => subGraph_closed s m) (subGraph_closed s e.name) _ hU
+  rw [hr]
+  simp only
+  rw [cycleDiags_noError_iff _ _ _ _ _ _ err_SUBSUPER_LOOP]
+  have key := subsuper_found_iff s e.name
+  constructor
+  · intro hf hc
+    obtain ⟨r', hr', hf'⟩ := key.mpr hc
+    rw [hr] at hr'; cases hr'; rw [hf] at hf'; cases hf'
+  · intro hn
+    cases hf : r.found with
+    | false => rfl
+    | true => exact absurd (key.mp ⟨r, hr, hf⟩) hn
+
+/-! ### one entity, one schema -/
+
+/-- well-formedness of entity `e` as far as passes 3–5 look -/
+def EntityWF (env : Env) (s : Schema) (e : Entity) : Prop :=
+  let fuel := s.decls.length + 1
+  ((∀ x ∈ e.supers, isEnt env s x.1 = true) ∧ (∀ n ∈ e.subs, isEnt env s n = true)) ∧
+  (SubtypesListSuper s e ∧
+   (∀ a ∈ e.attrs, TypeRefWF env s a.ty ∧ InverseWF s (fun en an => namedAttr s an fuel en = some true) a) ∧
+   (∀ u ∈ e.uniques, UniqueWF s fuel e u) ∧
+   ¬ Reach (subGraph s) e.name e.name) ∧
+  (NoOverload s fuel e ∧ RedeclWF s fuel e ∧ RulesWF s fuel e)
+
+theorem entityPass4_noError_iff (p : String) (env : Env) (s : Schema) (e : Entity)
+    (hlim : ∀ k, ResolveGen.subsuperDepthLimit = some k → s.decls.length < k) :
+    hasError (entityPass4 p env s e) = false ↔
+      SubtypesListSuper s e ∧
+      (∀ a ∈ e.attrs, TypeRefWF env s a.ty ∧ InverseWF s (fun en an => namedAttr s an (s.decls.length + 1) en = some true) a) ∧
+      (∀ u ∈ e.uniques, UniqueWF s (s.decls.length + 1) e u) ∧ ¬ Reach (subGraph s) e.name e.name := by
+  simp only [entityPass4, hasError_append, Bool.or_eq_false_iff, and_assoc, missingSuper_noError_iff, attr_noError_iff,
+    subsuperCycle_noError_iff p s e hlim, hasError_flatMap_false, unique_noError_iff]
+
+/-- **the three resolve passes report no ERROR for entity `e` ⇔ `e` is well formed** (below the recursion-depth guard) -/
+theorem entity_noError_iff (p : String) (env : Env) (s : Schema) (e : Entity)
+    (hlim : ∀ k, ResolveGen.subsuperDepthLimit = some k → s.decls.length < k) :
+    (hasError (superSubDiags p env s e) = false ∧ hasError (entityPass4 p env s e) = false ∧
+      hasError (entityPass5 p s (s.decls.length + 1) e) = false) ↔ EntityWF env s e := by
+  simp only [EntityWF, superSub_noError_iff, entityPass4_noError_iff p env s e hlim, entityPass5_noError_iff]
+
+/-- the WHERE rules of the type declarations: every call names a function -/
+def TypeRulesWF (s : Schema) : Prop :=
+  ∀ t ∈ s.types, ∀ r ∈ t.rules, ∀ it ∈ r.items, match it with | .call fn _ => CallWF s fn | _ => True
+
+theorem typeRules_noError_iff (p : String) (s : Schema) : hasError (typeRuleDiags p s) = false ↔ TypeRulesWF s := by
+  simp only [typeRuleDiags, hasError_flatMap_false, TypeRulesWF]
+  refine forall_congr' fun t => forall_congr' fun _ => forall_congr' fun r => forall_congr' fun _ =>
+    forall_congr' fun it => forall_congr' fun _ => ?_
+  cases it with
+  | call fn argc => exact callDiags_noError_iff p s r fn argc
+  | selfAttr _ => simp [hasError_nil]
+  | bareAttr _ => simp [hasError_nil]
+  | badGroup _ => simp [hasError_nil]
+  | smallReal _ => simp [hasError_nil]
+
+/-- well-formedness of one declaration as far as passes 3 and 4 look -/
+def DeclWF34 (env : Env) (s : Schema) : Decl → Prop
+  | .entity e =>
+    ((∀ x ∈ e.supers, isEnt env s x.1 = true) ∧ (∀ n ∈ e.subs, isEnt env s n = true)) ∧
+    SubtypesListSuper s e ∧
+    (∀ a ∈ e.attrs, TypeRefWF env s a.ty ∧ InverseWF s (fun en an => namedAttr s an (s.decls.length + 1) en = some true) a) ∧
+    (∀ u ∈ e.uniques, UniqueWF s (s.decls.length + 1) e u) ∧ ¬ Reach (subGraph s) e.name e.name
+  | .type t => TypeDeclWF env s t ∧ (∀ items, t.body = .select items → ¬ Reach (selectGraph s) t.name t.name)
+  | _ => True
+
+/-- **declarative well-formedness of a schema** (resolve phase): every entity names entities as super/subtypes, lists its
+    supertypes, has resolvable attribute types, well-formed INVERSE and UNIQUE clauses and is on no sub/super cycle; every type
+    declaration is well formed and on no select cycle; the WHERE rules of types call functions; no entity re-declares an inherited
+    attribute, redeclarations name a declaring ancestor, domain rules refer to functions and visible attributes -/
+def SchemaWF (env : Env) (s : Schema) : Prop :=
+  (∀ d ∈ s.decls, DeclWF34 env s d) ∧ TypeRulesWF s ∧
+  (∀ e ∈ s.entities, NoOverload s (s.decls.length + 1) e ∧ RedeclWF s (s.decls.length + 1) e ∧ RulesWF s (s.decls.length + 1) e)
+
+theorem selectCycle_nonselect (p : String) (s : Schema) (t : TypeDecl) (h : ∀ items, t.body ≠ .select items) :
+    selectCycleDiags p s t = [] := by
+  cases hb : t.body with
+  | select items => exact absurd hb (h items)
+  | ref r => simp [selectCycleDiags, hb]
+  | enum it => simp [selectCycleDiags, hb]
+
+/-- **the resolve passes report no ERROR for schema `s` ⇔ `s` is well formed** — all three passes over the schema's own
+    declarations, for every environment of imported names, below the recursion-depth guard -/
+theorem schema_noError_iff (p : String) (env : Env) (s : Schema)
+    (hlim : ∀ k, ResolveGen.subsuperDepthLimit = some k → s.decls.length < k) :
+    hasError (pass3 p env s ++ pass4 p env s ++ (pass5 p s).diags) = false ↔ SchemaWF env s := by
+  simp only [hasError_append, Bool.or_eq_false_iff, SchemaWF, pass5, typeRules_noError_iff, and_assoc]
+  have h34 : (hasError (pass3 p env s) = false ∧ hasError (pass4 p env s) = false) ↔ ∀ d ∈ s.decls, DeclWF34 env s d := by
+    simp only [pass3, pass4, hasError_flatMap_false]
+    constructor
+    · rintro ⟨h3, h4⟩ d hd
+      have a3 := h3 d hd
+      have a4 := h4 d hd
+      cases d with
+      | entity e =>
+        simp only at a3 a4
+        exact ⟨(superSub_noError_iff p env s e).mp a3, (entityPass4_noError_iff p env s e hlim).mp a4⟩
+      | type t =>
+        simp only at a3 a4
+        refine ⟨(typeDecl_noError_iff p env s t).mp a3, ?_⟩
+        intro items hb
+        exact (selectCycle_noError_iff p s t items hb).mp a4
+      | func f => trivial
+      | syntaxError a b c => trivial
+    · intro h
+      refine ⟨fun d hd => ?_, fun d hd => ?_⟩
+      · have := h d hd
+        cases d with
+        | entity e => exact (superSub_noError_iff p env s e).mpr this.1
+        | type t => exact (typeDecl_noError_iff p env s t).mpr this.1
+        | func f => rfl
+        | syntaxError a b c => rfl
+      · have := h d hd
+        cases d with
+        | entity e => exact (entityPass4_noError_iff p env s e hlim).mpr this.2
+        | type t =>
+          simp only
+          cases hb : t.body with
+          | select items => exact (selectCycle_noError_iff p s t items hb).mpr (this.2 items hb)
+          | ref r => rw [selectCycle_nonselect p s t (by intro items; rw [hb]; simp)]; rfl
+          | enum it => rw [selectCycle_nonselect p s t (by intro items; rw [hb]; simp)]; rfl
+        | func f => rfl
+        | syntaxError a b c => rfl
+  constructor
+  · rintro ⟨h3, h4, ht, h5⟩
+    refine ⟨h34.mp ⟨h3, h4⟩, ht, ?_⟩
+    intro e he
+    exact (entityPass5_noError_iff p s _ e).mp ((hasError_flatMap_false _ _).mp h5 e he)
+  · rintro ⟨hd, ht, h5⟩
+    obtain ⟨h3, h4⟩ := h34.mpr hd
+    refine ⟨h3, h4, ht, ?_⟩
+    exact (hasError_flatMap_false _ _).mpr (fun e he => (entityPass5_noError_iff p s _ e).mpr (h5 e he))
+
+/-! ### the parse phase -/
+
+/-- what the parser itself checks inside one declaration: attribute names of an entity, items of an enumeration are distinct -/
+def DeclParseWF : Decl → Prop
+  | .entity e => (e.attrs.map (·.name)).Nodup
+  | .type t => (match t.body with | .enum items => (items.map (·.1)).Nodup | _ => True)
+  | _ => True
+
+theorem declParse_noError_iff (p : String) (d : Decl) : hasError (declParseDiags p d) = false ↔ DeclParseWF d := by
+  cases d with
+  | entity e =>
+    simp only [declParseDiags, DeclParseWF, hasError_append, Bool.or_eq_false_iff]
+    refine Iff.trans (and_iff_left ?_) ?_
+    · rw [hasError_flatMap_false]; intro r _
+      rw [hasError_filterMap_false]; intro it _ d hd
+      cases it <;> simp at hd
+      subst hd; errsimp
+    rw [dupDiags_noError_iff]
+    simp [List.map_map, Function.comp_def]
+  | type t =>
+    simp only [declParseDiags, DeclParseWF]
+    cases t.body with
+    | enum items => exact dupDiags_noError_iff p items
+    | ref r => simp [hasError_nil]
+    | select it => simp [hasError_nil]
+  | func f => simp [declParseDiags, DeclParseWF, hasError_nil]
+  | syntaxError a b c => simp [declParseDiags, DeclParseWF, hasError_nil]
+
+def isSyntaxMarker : Decl → Bool
+  | .syntaxError .. => true
+  | _ => false
+
+/-- the names the declarations enter into the schema's dictionary -/
+def declNames (ds : List Decl) : List String := (ds.filterMap declKey).map (·.1)
+
+/-- **the parse phase reports no ERROR ⇔** there is no syntax error, the declared names are pairwise distinct (and not yet in
+    the dictionary), and every declaration is well formed inside -/
+theorem parseDecls_noError_iff (p : String) : ∀ (ds : List Decl) (seen : List (String × Nat)),
+    hasError (parseDeclsFrom p ds seen).1 = false ↔
+      (∀ d ∈ ds, isSyntaxMarker d = false) ∧ (declNames ds).Nodup ∧ (∀ n ∈ declNames ds, n ∉ seen.map (·.1)) ∧
+      ∀ d ∈ ds, DeclParseWF d
+  | [], seen => by simp [parseDeclsFrom, hasError_nil, declNames]
+  | d :: ds, seen => by
+    cases hk : declKey d with
+    | none =>
+      cases d with
+      | syntaxError a b c =>
+        simp only [parseDeclsFrom]
+        constructor
+        · intro h; exfalso; revert h; errsimp
+        · rintro ⟨h, _⟩; have := h (.syntaxError a b c) (List.mem_cons_self ..); simp [isSyntaxMarker] at this
+      | entity e => simp [declKey] at hk
+      | type t => simp [declKey] at hk
+      | func f => simp [declKey] at hk
+    | some kl =>
+      obtain ⟨n, l⟩ := kl
+      have hns : isSyntaxMarker d = false := by cases d <;> simp_all [declKey, isSyntaxMarker]
+      have hpd : parseDeclsFrom p (d :: ds) seen =
+          (match seen.find? (·.1 = n) with
+           | some (_, l0) =>
+             let r := parseDeclsFrom p ds seen
+             (mk p LibErrors.DUPLICATE_DECL l [sArg n, .int l0] :: declParseDiags p d ++ r.1, r.2)
+           | none =>
+             let r := parseDeclsFrom p ds (seen ++ [(n, l)])
+             (declParseDiags p d ++ r.1, r.2)) := by
+        cases d with
+        | syntaxError a b c => simp [declKey] at hk
+        | entity e => simp only [declKey, Option.some.injEq, Prod.mk.injEq] at hk; obtain ⟨rfl, rfl⟩ := hk; rfl
+        | type e => simp only [declKey, Option.some.injEq, Prod.mk.injEq] at hk; obtain ⟨rfl, rfl⟩ := hk; rfl
+        | func e => simp only [declKey, Option.some.injEq, Prod.mk.injEq] at hk; obtain ⟨rfl, rfl⟩ := hk; rfl
+      rw [hpd]
+      have hnames : declNames (d :: ds) = n :: declNames ds := by simp [declNames, List.filterMap_cons, hk]
+      cases hf : seen.find? (fun x => x.1 = n) with
+      | some x =>
+        obtain ⟨n0, l0⟩ := x
+        have hm := List.mem_of_find?_eq_some hf
+        have hx := List.find?_some hf
+        simp only [decide_eq_true_eq] at hx
+        simp only
+        constructor
+        · intro h; exfalso; revert h; errsimp
+        · rintro ⟨_, _, h3, _⟩
+          exfalso
+          exact h3 n (by rw [hnames]; simp) (List.mem_map.mpr ⟨(n0, l0), hm, hx⟩)
+      | none =>
+        have hn : n ∉ seen.map (·.1) := by
+          intro hm
+          obtain ⟨y, hy, hyn⟩ := List.mem_map.mp hm
+          have := List.find?_eq_none.mp hf y hy
+          simp [hyn] at this
+        simp only [hasError_append, Bool.or_eq_false_iff, declParse_noError_iff, parseDecls_noError_iff p ds (seen ++ [(n, l)]),
+          hnames, List.nodup_cons, List.forall_mem_cons, hns, true_and, List.map_append, List.map_cons,
+          List.map_nil, List.mem_append, List.mem_singleton]
+        constructor
+        · rintro ⟨hd, hs, hnd, hseen, hall⟩
+          refine ⟨hs, ⟨?_, hnd⟩, ⟨hn, ?_⟩, hd, hall⟩
+          · intro hmem; exact hseen n hmem (Or.inr rfl)
+          · intro m hm hc; exact hseen m hm (Or.inl hc)
+        · rintro ⟨hs, ⟨hnn, hnd⟩, ⟨_, hseen⟩, hd, hall⟩
+          refine ⟨hd, hs, hnd, ?_, hall⟩
+          intro m hm hc
+          rcases hc with hc | hc
+          · exact hseen m hm hc
+          · subst hc; exact hnn hm
+
+/-- a cut parse always carries the syntax ERROR that cut it -/
+theorem parseDecls_cut_error (p : String) : ∀ (ds : List Decl) (seen : List (String × Nat)),
+    (parseDeclsFrom p ds seen).2 = true → hasError (parseDeclsFrom p ds seen).1 = true
+  | [], _ => by simp [parseDeclsFrom]
+  | .syntaxError a b c :: ds, seen => by intro _; simp only [parseDeclsFrom]; errsimp
+  | .entity e :: ds, seen => by
+    simp only [parseDeclsFrom, declKey]
+    cases seen.find? (fun x => x.1 = e.name) with
+    | some x => intro _; errsimp
+    | none => intro h; simp only [hasError_append, parseDecls_cut_error p ds _ h, Bool.or_true]
+  | .type e :: ds, seen => by
+    simp only [parseDeclsFrom, declKey]
+    cases seen.find? (fun x => x.1 = e.name) with
+    | some x => intro _; errsimp
+    | none => intro h; simp only [hasError_append, parseDecls_cut_error p ds _ h, Bool.or_true]
+  | .func e :: ds, seen => by
+    simp only [parseDeclsFrom, declKey]
+    cases seen.find? (fun x => x.1 = e.name) with
+    | some x => intro _; errsimp
+    | none => intro h; simp only [hasError_append, parseDecls_cut_error p ds _ h, Bool.or_true]
+
+/-- what the parser checks in one schema body -/
+def ParseWF (s : Schema) : Prop :=
+  (∀ d ∈ s.decls, isSyntaxMarker d = false) ∧ (declNames s.decls).Nodup ∧ ∀ d ∈ s.decls, DeclParseWF d
+
+theorem parseSchema_noError_iff (p : String) (s : Schema) : hasError (parseDeclsFrom p s.decls []).1 = false ↔ ParseWF s := by
+  rw [parseDecls_noError_iff]; simp [ParseWF]
+
+theorem parseSchemas_noError_iff (p : String) : ∀ ss : List Schema,
+    hasError (parseSchemas p ss) = false ↔ ∀ s ∈ ss, ParseWF s
+  | [] => by simp [parseSchemas, hasError_nil]
+  | s :: ss => by
+    simp only [parseSchemas, List.forall_mem_cons, ← parseSchema_noError_iff p s]
+    cases hc : (parseDeclsFrom p s.decls []).2 with
+    | true =>
+      have := parseDecls_cut_error p s.decls [] hc
+      simp [this]
+    | false =>
+      simp only [Bool.false_eq_true, if_false, hasError_append, Bool.or_eq_false_iff, parseSchemas_noError_iff p ss,
+        parseSchema_noError_iff]
+
+/-! ### the interface clauses (passes 1 and 2) -/
+
+/-- pass 1: every interface clause names a schema of the file (a clause with an empty item list reports nothing) -/
+def ClausesWF (f : File) (s : Schema) : Prop :=
+  ∀ i ∈ s.ifaces, (findSchema f i.schema).isSome = true ∨ i.items = some []
+
+theorem pass1_noError_iff (f : File) (s : Schema) : hasError (pass1 f s) = false ↔ ClausesWF f s := by
+  unfold pass1 ClausesWF
+  rw [hasError_flatMap_false]
+  refine forall_congr' fun i => forall_congr' fun _ => ?_
+  cases hfs : (findSchema f i.schema).isSome with
+  | true => simp [hasError_nil]
+  | false =>
+    simp only [Bool.false_eq_true, if_false, false_or]
+    cases hi : i.items with
+    | none => simp only [reduceCtorEq, iff_false, Bool.not_eq_false]; errsimp
+    | some its =>
+      cases its with
+      | nil => simp [hasError_nil]
+      | cons a as => simp only [List.map_cons, Option.some.injEq, reduceCtorEq, iff_false, Bool.not_eq_false]; errsimp
+
+/-- two imported items under one visible name denote the same object -/
+def Consistent (l : List (String × Nat × Obj)) : Prop := ∀ x ∈ l, ∀ y ∈ l, x.1 = y.1 → x.2.2 = y.2.2
+
+theorem nodup_map_inj {α β : Type} {g : α → β} : ∀ {l : List α}, (l.map g).Nodup → ∀ x ∈ l, ∀ y ∈ l, g x = g y → x = y
+  | [], _ => by simp
+  | a :: as, h => by
+    rw [List.map_cons, List.nodup_cons] at h
+    intro x hx y hy hxy
+    rcases List.mem_cons.mp hx with rfl | hx' <;> rcases List.mem_cons.mp hy with rfl | hy'
+    · rfl
+    · exact absurd (hxy ▸ List.mem_map.mpr ⟨y, hy', rfl⟩) h.1
+    · exact absurd (hxy ▸ List.mem_map.mpr ⟨x, hx', rfl⟩) h.1
+    · exact nodup_map_inj h.2 x hx' y hy' hxy
+
+theorem aliasDups_noError_iff (p : String) : ∀ (l seen : List (String × Nat × Obj)), (seen.map (·.1)).Nodup →
+    (hasError (aliasDups p l seen) = false ↔ Consistent (seen ++ l))
+  | [], seen, hnd => by
+    simp only [aliasDups, hasError_nil, List.append_nil, true_iff]
+    intro x hx y hy hxy
+    rw [nodup_map_inj hnd x hx y hy hxy]
+  | (n, l, o) :: rest, seen, hnd => by
+    simp only [aliasDups]
+    cases hf : seen.find? (fun x => x.1 = n) with
+    | some x =>
+      obtain ⟨n0, l0, o0⟩ := x
+      have hm := List.mem_of_find?_eq_some hf
+      have hx := List.find?_some hf
+      simp only [decide_eq_true_eq] at hx
+      subst hx
+      simp only
+      by_cases ho : o0 = o
+      · subst ho
+        simp only [if_true]
+        rw [aliasDups_noError_iff p rest seen hnd]
+        constructor
+        · intro h x hx y hy hxy
+          have fix : ∀ z, z ∈ seen ++ (n0, l, o0) :: rest → ∃ z' ∈ seen ++ rest, z'.1 = z.1 ∧ z'.2.2 = z.2.2 := by
+            intro z hz
+            simp only [List.mem_append, List.mem_cons] at hz
+            rcases hz with hz | rfl | hz
+            · exact ⟨z, List.mem_append_left _ hz, rfl, rfl⟩
+            · exact ⟨(n0, l0, o0), List.mem_append_left _ hm, rfl, rfl⟩
+            · exact ⟨z, List.mem_append_right _ hz, rfl, rfl⟩
+          obtain ⟨x', hx', hx1, hx2⟩ := fix x hx
+          obtain ⟨y', hy', hy1, hy2⟩ := fix y hy
+          rw [← hx2, ← hy2]; exact h x' hx' y' hy' (by rw [hx1, hy1]; exact hxy)
+        · intro h x hx y hy hxy
+          have up : ∀ z, z ∈ seen ++ rest → z ∈ seen ++ (n0, l, o0) :: rest := by
+            intro z hz; simp only [List.mem_append, List.mem_cons] at hz ⊢
+            rcases hz with hz | hz
+            · exact Or.inl hz
+            · exact Or.inr (Or.inr hz)
+          exact h x (up x hx) y (up y hy) hxy
+      · simp only [ho, if_false]
+        constructor
+        · intro h; exfalso; revert h; errsimp
+        · intro h; exfalso
+          exact ho (h (n0, l0, o0) (List.mem_append_left _ hm) (n0, l, o) (by simp) rfl)
+    | none =>
+      have hn : n ∉ seen.map (·.1) := by
+        intro hm
+        obtain ⟨y, hy, hyn⟩ := List.mem_map.mp hm
+        have := List.find?_eq_none.mp hf y hy
+        simp [hyn] at this
+      simp only
+      rw [aliasDups_noError_iff p rest (seen ++ [(n, l, o)]) (by
+        rw [List.map_append, List.nodup_append]
+        refine ⟨hnd, by simp, ?_⟩
+        intro a ha b hb
+        simp only [List.map_cons, List.map_nil, List.mem_singleton] at hb
+        subst hb; intro hab; subst hab; exact hn ha)]
+      rw [List.append_assoc]; rfl
+
+/-- pass 2: every imported item resolves in the schema it is imported from, and no visible name stands for two objects -/
+def ImportsWF (f : File) (fb : Bool) (s : Schema) : Prop :=
+  (∀ x ∈ useItems s ++ refItems s, (exportOf f fb (processedBefore f s.name) (importFuel f) x.1 x.2.old).isSome = true) ∧
+  Consistent (resolvedItems f fb (processedBefore f s.name) (useItems s)) ∧
+  Consistent (resolvedItems f fb (processedBefore f s.name) (refItems s))
+
+theorem pass2_noError_iff (f : File) (fb : Bool) (s : Schema) : hasError (pass2 f fb s) = false ↔ ImportsWF f fb s := by
+  have miss : ∀ items : List (String × Item),
+      hasError (items.filterMap fun (x : String × Item) =>
+        match exportOf f fb (processedBefore f s.name) (importFuel f) x.1 x.2.old with
+        | some _ => none
+        | none => some (mk (fileOf f s) LibErrors.REF_NONEXISTENT x.2.line [sArg x.2.old, sArg x.1])) = false ↔
+      ∀ x ∈ items, (exportOf f fb (processedBefore f s.name) (importFuel f) x.1 x.2.old).isSome = true := by
+    intro items
+    induction items with
+    | nil => simp [hasError_nil]
+    | cons x xs ih =>
+      rw [List.filterMap_cons, List.forall_mem_cons, ← ih]
+      cases exportOf f fb (processedBefore f s.name) (importFuel f) x.1 x.2.old with
+      | some o => simp
+      | none => simp only [Option.isSome_none, Bool.false_eq_true, false_and, iff_false, Bool.not_eq_false]; errsimp
+  unfold pass2 ImportsWF
+  simp only [hasError_append, Bool.or_eq_false_iff, List.forall_mem_append]
+  rw [aliasDups_noError_iff _ _ [] (by simp), aliasDups_noError_iff _ _ [] (by simp)]
+  simp only [List.nil_append]
+  have m1 := miss (useItems s)
+  have m2 := miss (refItems s)
+  constructor
+  · rintro ⟨⟨⟨h1, h2⟩, h3⟩, h4⟩; exact ⟨⟨m1.mp h1, m2.mp h3⟩, h2, h4⟩
+  · rintro ⟨⟨h1, h3⟩, h2, h4⟩; exact ⟨⟨⟨m1.mpr h1, h2⟩, m2.mpr h3⟩, h4⟩
+
+/-! ### the whole file -/
+
+/-- **well-formedness of a file, as the front end checks it**: every schema body parses and declares distinct names
+    (in the file itself and in the schema files pulled in), every interface clause names a schema, every imported item
+    resolves without a name clash, and every schema that is resolved is well formed in the environment its imports
+    give it -/
+structure FileWF (f : File) : Prop where
+  parse : ∀ s ∈ f.schemas, ParseWF s
+  clauses : ∀ s ∈ f.schemas, ClausesWF f s
+  imports : ∀ s ∈ liveSchemas f, ImportsWF f ResolveGen.renameUselistFallback s
+  schemas : ∀ s ∈ liveSchemas f, SchemaWF (envOf f ResolveGen.renameUselistFallback s) s
+
+theorem normSchema_decls_length (s : Schema) : (normSchema s).decls.length = s.decls.length := by
+  simp [normSchema]
+
+/-- **the front end accepts a file ⇔ the file is lexically clean and well formed** -/
+theorem file_accepts_iff (f : File) (lex : List Diag)
+    (hlim : ∀ k, ResolveGen.subsuperDepthLimit = some k → ∀ s ∈ f.schemas, s.decls.length < k) :
+    (verdict f lex).rejects = false ↔ hasError lex = false ∧ FileWF f := by
+  have g1 : LibErrors.gateAfterParse = true := by decide
+  have hparse : hasError (parseDiags f) = false ∧ hasError (externalParseDiags f) = false ↔ ∀ s ∈ f.schemas, ParseWF s := by
+    unfold parseDiags externalParseDiags
+    rw [parseSchemas_noError_iff, hasError_flatMap_false]
+    simp only [List.mem_filter, parseSchema_noError_iff]
+    constructor
+    · rintro ⟨h1, h2⟩ s hs
+      cases hfile : s.file with
+      | none => exact h1 s ⟨hs, by simp [hfile]⟩
+      | some x => exact h2 s ⟨hs, by simp [hfile]⟩
+    · intro h; exact ⟨fun s hs => h s hs.1, fun s hs => h s hs.1⟩
+  have hres : hasError (resolveDiags f).diags = false ↔
+      hasError (externalParseDiags f) = false ∧ (∀ s ∈ f.schemas, ClausesWF f s) ∧
+      (∀ s ∈ liveSchemas f, ImportsWF f ResolveGen.renameUselistFallback s) ∧
+      (∀ s ∈ liveSchemas f, SchemaWF (envOf f ResolveGen.renameUselistFallback s) s) := by
+    unfold resolveDiags
+    simp only [hasError_append, Bool.or_eq_false_iff, hasError_flatMap_false, pass1_noError_iff, pass2_noError_iff,
+      List.mem_map, forall_exists_index, and_imp, forall_apply_eq_imp_iff₂]
+    have hl : ∀ s ∈ liveSchemas f, ∀ k, ResolveGen.subsuperDepthLimit = some k → s.decls.length < k := by
+      intro s hs k hk
+      obtain ⟨s0, hs0, rfl⟩ := List.mem_map.mp hs
+      rw [normSchema_decls_length]; exact hlim k hk s0 (List.mem_filter.mp hs0).1
+    constructor
+    · rintro ⟨⟨⟨⟨⟨he, h1⟩, h2⟩, h3⟩, h4⟩, h5⟩
+      refine ⟨he, h1, h2, fun s hs => ?_⟩
+      rw [← schema_noError_iff (fileOf f s) _ s (hl s hs)]
+      simp only [hasError_append, Bool.or_eq_false_iff]
+      exact ⟨⟨h3 s hs, h4 s hs⟩, h5 s hs⟩
+    · rintro ⟨he, h1, h2, hw⟩
+      have h := fun s hs => (schema_noError_iff (fileOf f s) _ s (hl s hs)).mpr (hw s hs)
+      simp only [hasError_append, Bool.or_eq_false_iff] at h
+      exact ⟨⟨⟨⟨⟨he, h1⟩, h2⟩, fun s hs => (h s hs).1.1⟩, fun s hs => (h s hs).1.2⟩, fun s hs => (h s hs).2⟩
+  simp only [Verdict.rejects, verdict, g1, if_true, Bool.or_eq_false_iff, hasError_append]
+  constructor
+  · rintro ⟨⟨hl, hp⟩, hr⟩
+    have hr' : hasError (resolveDiags f).diags = false := by simpa [hl, hp] using hr
+    obtain ⟨he, h1, h2, h3⟩ := hres.mp hr'
+    exact ⟨hl, hparse.mp ⟨hp, he⟩, h1, h2, h3⟩
+  · rintro ⟨hl, hp, h1, h2, h3⟩
+    obtain ⟨hp1, he⟩ := hparse.mpr hp
+    have hr := hres.mpr ⟨he, h1, h2, h3⟩
+    exact ⟨⟨hl, hp1⟩, by simp [hr]⟩
+
 end StepModel.Express.Resolve
